@@ -584,10 +584,16 @@ def c02_call_agreement(model, rep):
 
 
 # ------------------------------------------------------------------------------------------------ solver loop anatomy
-def solver_normal_form(fn):
+def solver_normal_form(fn, model=None):
     """`return E` inside the solver's while loop, where the statement right after the loop is `return E` too, is the same as
     `break`: rewritten on a copy so that one exit discipline is analysed"""
-    from .core import clone_ast
+    from .core import clone_ast, decontinue, inline_single_return_calls, inline_single_use_temps
+    if model is not None:
+        fn = inline_single_return_calls(decontinue(inline_single_use_temps(clone_ast(fn), only_bool=True)), model, "System")
+        fn.body = [s for s in fn.body if not isinstance(s, ast.FunctionDef)]
+        for node in ast.walk(fn):
+            for ch in ast.iter_child_nodes(node):
+                ch._parent = node
     loops = [s for s in fn.body if isinstance(s, ast.While)]
     if len(loops) != 1:
         return fn
@@ -610,6 +616,11 @@ def solver_normal_form(fn):
                 if isinstance(blk, list) and not isinstance(s, (ast.For, ast.While)):
                     rewrite(blk)
     rewrite(lp.body)
+    for i, s in enumerate(list(lp.body)):
+        if isinstance(s, ast.If) and s.orelse and isinstance(s.orelse[-1], ast.Break) and not isinstance(s.body[-1], (ast.Break, ast.Continue, ast.Return, ast.Raise)):
+            neg = s.test.operand if isinstance(s.test, ast.UnaryOp) and isinstance(s.test.op, ast.Not) else ast.UnaryOp(op=ast.Not(), operand=s.test)
+            lp.body[i:i + 1] = [ast.copy_location(ast.If(test=neg, body=s.orelse, orelse=[]), s)] + s.body
+            break
     ast.fix_missing_locations(new)
     for node in ast.walk(new):
         for ch in ast.iter_child_nodes(node):
@@ -619,7 +630,7 @@ def solver_normal_form(fn):
 
 def solver_anatomy(model, r):
     """structure of the SOLVER method: while loop, forward/backward calls, carried triple, convergence test"""
-    fn = solver_normal_form(model.own_method("System", r["SOLVER"]))
+    fn = solver_normal_form(model.own_method("System", r["SOLVER"]), model)
     loop = find_loop(fn, lambda l: isinstance(l, ast.While), "solver loop")
     an = {"fn": fn, "loop": loop}
     fwd = bwd = None
